@@ -181,10 +181,13 @@ def split_runs(trace):
     return [(s, (starts[j + 1] if j + 1 < len(starts) else n)) for j, s in enumerate(starts)]
 
 
-def validate_batch(module, cfg, trace, label, max_divergences=25, timeout=3600, lenient=True):
-    """Strict validation of a whole batch; every rejected run is cut out, re-validated leniently on
-    its own, and the remainder is validated again. Returns dict with counts and the list of
-    violations [(run_lines, rejected_event, meta)] and divergences."""
+def validate_batch(module, cfg, trace, label, max_violations=6, strict_budget=6, timeout=3600, lenient=True):
+    """Strict validation of a whole batch in one JVM. Every rejected run is cut out and validated
+    leniently on its own (violation if lenient rejects too, divergence otherwise) and the remainder
+    is validated again. After `strict_budget` strict rejections the remainder is validated in
+    lenient mode (still one JVM per pass), so that a change which makes every run diverge from the
+    implementation-shaped model still gets all of its runs judged on their observations.
+    Returns counts, violations, divergences and the deviations the spec reported."""
     lines = open(trace).read().splitlines()
     runs = []
     cur = None
@@ -195,33 +198,31 @@ def validate_batch(module, cfg, trace, label, max_divergences=25, timeout=3600, 
         elif cur is not None:
             cur.append(ln)
     total_runs = len(runs)
-    res = {"runs": total_runs, "events": len(lines) - total_runs, "strict_accepted": 0, "divergences": [],
-           "violations": [], "tlc_states": 0, "wall_s": 0.0, "deviations": {}}
+    res = {"runs": total_runs, "events": len(lines) - total_runs, "strict_accepted": 0, "lenient_accepted": 0,
+           "divergences": [], "violations": [], "tlc_states": 0, "wall_s": 0.0, "deviations": {}, "unvalidated": 0}
     work = os.path.join(WORK, "vb_" + label)
     os.makedirs(work, exist_ok=True)
     remaining = runs
-    rounds = 0
+    strict_mode = True
+    strict_rejections = 0
     while remaining:
-        rounds += 1
         f = os.path.join(work, "rem.ndjson")
         with open(f, "w") as o:
             for r in remaining:
                 o.write("\n".join(r) + "\n")
-        tv = tlc_trace(module, cfg, f, True, timeout=timeout, name=label + "_s")
+        tv = tlc_trace(module, cfg, f, strict_mode, timeout=timeout, name=label + ("_s" if strict_mode else "_lb"))
         res["wall_s"] += tv["wall_s"]
         res["tlc_states"] += tv["states"]
-        for k, n in tv["deviations"].items():
-            res["deviations"][k] = res["deviations"].get(k, 0) + n
         if tv.get("error") or tv["timeout"]:
             log(tv.get("error", "timeout"))
             raise ToolError("TLC trace validation failed to run (%s)" % label)
         if tv["accepted"]:
-            res["strict_accepted"] += len(remaining)
+            for k, n in tv["deviations"].items():
+                res["deviations"][k] = res["deviations"].get(k, 0) + n
+            res["strict_accepted" if strict_mode else "lenient_accepted"] += len(remaining)
             break
-        # locate the run holding the rejected line (1-based index into the concatenation)
         at = tv["rejected_at"]
         if at is None:
-            # an invariant of the module was violated along the trace: find the run by bisection on depth
             raise ToolError("invariant %s violated during trace validation of %s (spec bug?)\n%s" % (tv["invariant"], label, tv["tail"]))
         pos = 0
         bad_i = None
@@ -234,34 +235,50 @@ def validate_batch(module, cfg, trace, label, max_divergences=25, timeout=3600, 
             raise ToolError("cannot locate rejected line %s" % at)
         bad = remaining[bad_i]
         ev_idx = at - pos - 1
-        res["strict_accepted"] += bad_i
+        # deviations printed for the accepted prefix of this pass (one DEVIATION line per run end)
+        for k, n in tv["deviations"].items():
+            res["deviations"][k] = res["deviations"].get(k, 0) + n
+        res["strict_accepted" if strict_mode else "lenient_accepted"] += bad_i
+        entry = {"run": bad, "strict_event_index": ev_idx if strict_mode else None,
+                 "strict_event": (bad[ev_idx] if ev_idx < len(bad) else None) if strict_mode else None,
+                 "lenient_event_index": None}
         verdict = "violation"
-        lv = None
-        if lenient:
-            bf = os.path.join(work, "bad.ndjson")
-            with open(bf, "w") as o:
-                o.write("\n".join(bad) + "\n")
-            lv = tlc_trace(module, cfg, bf, False, timeout=timeout, name=label + "_l")
-            res["wall_s"] += lv["wall_s"]
-            if lv.get("error") or lv["timeout"]:
-                log(lv.get("error", "timeout"))
-                raise ToolError("TLC lenient validation failed to run (%s)" % label)
-            if lv["accepted"]:
-                verdict = "divergence"
-        entry = {"run": bad, "strict_event_index": ev_idx, "strict_event": bad[ev_idx] if ev_idx < len(bad) else None,
-                 "lenient_event_index": (lv["rejected_at"] - 1) if lv and lv["rejected_at"] else None}
+        if strict_mode:
+            strict_rejections += 1
+            if lenient:
+                bf = os.path.join(work, "bad.ndjson")
+                with open(bf, "w") as o:
+                    o.write("\n".join(bad) + "\n")
+                lv = tlc_trace(module, cfg, bf, False, timeout=timeout, name=label + "_l")
+                res["wall_s"] += lv["wall_s"]
+                if lv.get("error") or lv["timeout"]:
+                    log(lv.get("error", "timeout"))
+                    raise ToolError("TLC lenient validation failed to run (%s)" % label)
+                if lv["accepted"]:
+                    verdict = "divergence"
+                    for k, n in lv["deviations"].items():
+                        res["deviations"][k] = res["deviations"].get(k, 0) + n
+                elif lv["rejected_at"]:
+                    entry["lenient_event_index"] = lv["rejected_at"] - 1
+        else:
+            entry["lenient_event_index"] = ev_idx
         if verdict == "divergence":
             res["divergences"].append(entry)
             log("[V] DIVERGENCE (%s): strict rejects at %s, lenient accepts" % (label, entry["strict_event"]))
         else:
-            if entry["lenient_event_index"] is not None and entry["lenient_event_index"] < len(bad):
-                entry["lenient_event"] = bad[entry["lenient_event_index"]]
+            li = entry["lenient_event_index"]
+            if li is not None and li < len(bad):
+                entry["lenient_event"] = bad[li]
             res["violations"].append(entry)
             log("[V] REJECTED (%s): %s" % (label, entry.get("lenient_event") or entry["strict_event"]))
         remaining = remaining[bad_i + 1:]
-        if len(res["divergences"]) + len(res["violations"]) >= max_divergences:
-            log("[V] too many rejected runs; stopping validation of %s" % label)
+        if len(res["violations"]) >= max_violations:
+            res["unvalidated"] = len(remaining)
+            log("[V] %d violations found; %d runs of %s left unvalidated" % (len(res["violations"]), len(remaining), label))
             break
+        if strict_mode and strict_rejections >= strict_budget and lenient:
+            log("[V] %d strict rejections: validating the remaining %d runs of %s on observations only" % (strict_rejections, len(remaining), label))
+            strict_mode = False
     shutil.rmtree(work, ignore_errors=True)
     return res
 
